@@ -614,7 +614,10 @@ def private_callees(model: Model, fi: FuncInfo) -> List[FuncInfo]:
             continue
         nested = g.parent_func is fi
         private_fn = g.module is fi.module and g.name.startswith("_") and not g.name.startswith("__")
-        if nested or private_fn:
+        # a method of a class that itself lives inside a function cannot be called from outside: private in effect
+        # (the visitor protocol's own entry points are not helpers)
+        inner_method = g.cls is not None and g.cls is fi.cls and g.parent_func is not None and not g.name.startswith(("visit_", "call_", "__")) and g.name not in ("visit", "generic_visit")
+        if nested or private_fn or inner_method:
             out.append(g)
     return out
 
